@@ -388,7 +388,7 @@ class StmtMixin:
         spec = self.unit.loop_spec(self, idx) if idx is not None else None
         it = self.eval(s.iter)
         it, mapper = self.iter_view(it)
-        if isinstance(it, list) and (spec is None or spec.unroll):
+        if isinstance(it, list) and (spec is None or spec.unroll or len(it) == 0):
             try:
                 for k, x in enumerate(it):
                     self.bind_target(s.target, mapper(k, x))
